@@ -35,15 +35,17 @@ fn vbit(d: &[u8], k: usize) -> bool {
     (d[k / 8] >> (k % 8)) & 1 == 1
 }
 
-// Contract (C02/C01): for a validity bitmap of NBITS bits sitting at bit offset BOFF of a 4-byte
+// Contract (C02/C01): for a validity bitmap of NBITS bits sitting at bit offset BOFF of a 2- or 4-byte
 // buffer (arbitrary contents; BOFF, NBITS concrete grid point because NullBuffer construction
 // counts bits) and an arbitrary in-range window [offset, offset+len):
 //   contains_nulls(Some(nulls), offset, len) <=> some bit of the window is 0;
 //   count_nulls(Some(nulls), offset, len)     = number of 0 bits in the window;
 //   with None: false / 0. Bits outside the window (and outside the bitmap) are irrelevant.
-// NOT CONFIRMED: did not finish within 600 s on the heavily loaded machine (load ~75); no failure seen.
-fn nulls_window_case<const BOFF: usize, const NBITS: usize>() {
-    let d: [u8; 4] = kani::any();
+// Cost note: the 20/17-bit grid points are heavy (BitSliceIterator + two popcount passes over symbolic
+// windows): nulls_window_3_17 finished once in < 1500 s on the loaded machine, a 0_20 point never did
+// (dropped). The 2-byte points below are the regular units.
+fn nulls_window_case<const NBYTES: usize, const BOFF: usize, const NBITS: usize>() {
+    let d: [u8; NBYTES] = kani::any();
     let bb = BooleanBuffer::new(Buffer::from_slice_ref(d), BOFF, NBITS);
     let nb = NullBuffer::new(bb);
     let (offset, len): (usize, usize) = (kani::any(), kani::any());
@@ -65,15 +67,21 @@ fn nulls_window_case<const BOFF: usize, const NBITS: usize>() {
     kani::cover!(len == 0);
     kani::cover!(zeros == 0 && len > 0 && nb.null_count() > 0); // nulls only outside the window
 }
-// @unit name=nulls_window_0_20 props=C02,C01 kind=bounded bound=bitmap_offset0_20_bits fns=contains_nulls,count_nulls tier=thorough mem=4 timeout=900
+// @unit name=nulls_window_0_12 props=C02,C01 kind=bounded bound=bitmap_offset0_12_bits_in_2_bytes fns=contains_nulls,count_nulls tier=quick mem=4 timeout=900
 #[kani::proof]
-#[kani::unwind(34)]
-fn nulls_window_0_20() {
-    nulls_window_case::<0, 20>()
+#[kani::unwind(20)]
+fn nulls_window_0_12() {
+    nulls_window_case::<2, 0, 12>()
 }
-// @unit name=nulls_window_3_17 props=C02,C01 kind=bounded bound=bitmap_offset3_17_bits fns=contains_nulls,count_nulls tier=thorough mem=4 timeout=900
+// @unit name=nulls_window_3_9 props=C02,C01 kind=bounded bound=bitmap_offset3_9_bits_in_2_bytes fns=contains_nulls,count_nulls tier=quick mem=4 timeout=900
+#[kani::proof]
+#[kani::unwind(20)]
+fn nulls_window_3_9() {
+    nulls_window_case::<2, 3, 9>()
+}
+// @unit name=nulls_window_3_17 props=C02,C01 kind=bounded bound=bitmap_offset3_17_bits_in_4_bytes fns=contains_nulls,count_nulls tier=thorough mem=8 timeout=900
 #[kani::proof]
 #[kani::unwind(34)]
 fn nulls_window_3_17() {
-    nulls_window_case::<3, 17>()
+    nulls_window_case::<4, 3, 17>()
 }
